@@ -13,11 +13,34 @@ THEOREMS = [
 ]
 
 
-def impl_instance(lb, M, mult):
+LAYOUTS = ("C", "F", "transposed-view", "strided-view", "int32", "uint64")
+
+
+def laid_out(np, M, layout: str):
+    """the same logical matrix in another memory layout / element type (all are plain `np.ndarray`s a caller may pass)"""
+    a = np.array(M, dtype=np.int64)
+    if a.ndim != 2 or a.size == 0:
+        return a
+    if layout == "F":
+        return np.asfortranarray(a)
+    if layout == "transposed-view":
+        return a.T.copy().T
+    if layout == "strided-view":
+        big = np.full((2 * a.shape[0], 2 * a.shape[1]), -7, dtype=np.int64)
+        big[::2, ::2] = a
+        return big[::2, ::2]
+    if layout == "int32" and a.size and 0 <= a.min() and a.max() < 2**31:
+        return a.astype(np.int32)
+    if layout == "uint64" and a.size and a.min() >= 0:
+        return a.astype(np.uint64)
+    return a
+
+
+def impl_instance(lb, M, mult, layout: str = "C"):
     import numpy as np
     from moptipyapps.tsp.instance import Instance
     try:
-        inst = Instance("x", int(lb), np.array(M, dtype=np.int64), int(mult))
+        inst = Instance("x", int(lb), laid_out(np, M, layout), int(mult))
     except (ValueError, TypeError):
         return None, "ERR"
     return inst, (f"n={inst.n_cities} lb={inst.tour_length_lower_bound} ub={inst.tour_length_upper_bound} "
@@ -170,7 +193,10 @@ def streams(ck: Check) -> None:
     ops, expect = [], []   # (op line, impl canonical output, context for the oracle)
     for stream, lb, M, mult, tours in gen_cases(ck):
         ck.count(f"{stream}")
-        inst, iout = impl_instance(lb, M, mult)
+        # the matrix arrives in any memory layout / integer type; the instance is a function of its VALUES
+        layout = "C" if stream in ("exh2", "malformed") else ck.rng.choice(LAYOUTS)
+        ck.count(f"layout_{layout}")
+        inst, iout = impl_instance(lb, M, mult, layout)
         line = f"tspI {lb} {mult} ; {fmt_matrix(M)}"
         ops.append(line)
         expect.append(("tspI", stream, iout, None))
